@@ -141,6 +141,11 @@ def _signal_filter_free(sched, me):
   return me.tid == 0 and me.label.startswith(('L:execute:', 'thread.start:TestExecutor'))
 
 
+def _gate_filter_tdgap(sched, me):
+  """Second abort of mode 'tdgap': while the executor walks from one teardown node to the next."""
+  return me is not None and me.label.startswith('L:_execute_teardown_sequence')
+
+
 GATE_MODES = {'wide': _gate_filter_quick, 'body': _gate_filter_body, 'main': _gate_filter_main, 'all': lambda sched, me: True}
 GATE_FILTER = [_gate_filter_quick]
 
@@ -177,9 +182,16 @@ def scenario(program, aborts, via, mode=None):
 
       at = threading.Thread(target=aborter, name='aborter')
       at.start()
+      if mode == 'tdgap':
+        # preemptions are spent on the aborting thread only (paused in the middle of abort()); everything else keeps
+        # running whenever it can
+        sched.preempt_filter = lambda me, label: me.name == 'aborter' and label.startswith(('L:abort:', 'L:_stop_phase_executor:'))
       prev = None
-      for g in gates:
-        prev = sched.add_gate(g, 'aborter', flt=GATE_FILTER[0], cost=0, after=prev)
+      for gi, g in enumerate(gates):
+        flt = GATE_FILTER[0]
+        if mode == 'tdgap':       # first abort during a main body, second one between two teardown nodes
+          flt = _gate_filter_main if gi == 0 else _gate_filter_tdgap
+        prev = sched.add_gate(g, 'aborter', flt=flt, cost=0, after=prev)
     else:
       sched.signal_handler = lambda: (runtime.vlog('sigint', bool(td.Test.TEST_INSTANCES), test._executor is not None,  # pylint: disable=protected-access
                                                    not td.Test.HANDLED_SIGINT_ONCE,
@@ -225,7 +237,7 @@ def scenario(program, aborts, via, mode=None):
 def execute(cfg, choices):
   program, aborts, via = cfg[:3]
   mode = cfg[3] if len(cfg) > 3 else None
-  GATE_FILTER[0] = GATE_MODES[mode if via == 'thread' and mode else 'wide']
+  GATE_FILTER[0] = GATE_MODES.get(mode if via == 'thread' and mode else 'wide', _gate_filter_quick)
   sched, value = explore.run_under_scheduler(
       scenario(program, aborts, via, mode), choices, focus_targets=focus(), focus_files=FOCUS_FILES, max_steps=60000,
       line_watch=LINE_WATCH)
@@ -266,7 +278,9 @@ def analyse(cfg, ex):
   violation naming that window (the consequences vary wildly with the schedule: lost callbacks, orphaned run, Test
   left 'running', AttributeError...); everything else is judged by the ordinary rules."""
   raw = _analyse_raw(cfg, ex)
-  if cfg[2] != 'sigint' or not raw or raw[0][0] == 'sigint-nested-handler-deadlock':
+  if cfg[2] != 'sigint' or not raw or raw[0][0] == 'sigint-nested-handler-deadlock' or ex.failure is not None:
+    # (a run that does not come back at all -- deadlock, livelock -- is never folded into a window signature: the
+    # known consequences of the unprotected windows are wrong output and leaked registrations, not hangs)
     return raw
   sig = [e for e in ex.result['events'] if e[0] == 'sigint']
   zones = sigint_zones(ex)
@@ -392,7 +406,7 @@ def _analyse_raw(cfg, ex):
       if e[0] == 'body-start' and i > finalized_at:
         out.append(('started-after-finalize', 'body %s started after the record was finalized' % e[1]))
   # (7) second abort
-  if aborts == 2 and via == 'thread' and len(effective_returns) == 2 and program == 'group':
+  if aborts == 2 and via == 'thread' and len(effective_returns) == 2:
     second = effective_returns[1]
     for i, e in enumerate(ev):
       if e[0] == 'body-start' and e[2] == 'teardown' and i > second:
@@ -492,20 +506,23 @@ def configs(tier):
     return [(('plain3', 1, 'thread', 'wide'), 0), (('group', 1, 'thread', 'wide'), 0), (('trigger', 1, 'thread', 'wide'), 0),
             (('repeat', 1, 'thread', 'wide'), 0), (('subtest', 1, 'thread', 'wide'), 0),
             (('group', 1, 'thread', 'main'), 1), (('group', 2, 'thread', 'body'), 0), (('plain3', 1, 'sigint'), 1),
-            (('group', 2, 'sigint', 'free'), 0)]
+            (('group', 2, 'sigint', 'free'), 0), (('group', 2, 'thread', 'tdgap'), 1)]
   return [(('plain3', 1, 'thread', 'all'), 1), (('group', 1, 'thread', 'all'), 1), (('trigger', 1, 'thread', 'all'), 1),
           (('repeat', 1, 'thread', 'all'), 1), (('subtest', 1, 'thread', 'all'), 1), (('group', 1, 'thread', 'body'), 2),
           (('group', 2, 'thread', 'wide'), 0), (('group', 2, 'thread', 'body'), 1), (('plain3', 2, 'thread', 'body'), 1),
           (('plain3', 1, 'sigint'), 1), (('group', 1, 'sigint'), 1), (('trigger', 1, 'sigint'), 1), (('repeat', 1, 'sigint'), 1),
           (('subtest', 1, 'sigint'), 1), (('group', 2, 'sigint', 'free'), 0), (('plain3', 2, 'sigint', 'free'), 0),
-          (('trigger', 2, 'sigint', 'free'), 0), (('subtest', 2, 'sigint', 'free'), 0), (('repeat', 2, 'sigint', 'free'), 0)]
+          (('trigger', 2, 'sigint', 'free'), 0), (('subtest', 2, 'sigint', 'free'), 0), (('repeat', 2, 'sigint', 'free'), 0),
+          (('group', 2, 'thread', 'tdgap'), 2), (('nested_td', 2, 'thread', 'tdgap'), 1)]
 
 
 def run(tier):
   rep = common.Report(PID, tier, 'model_checking')
   for cfg, bound in configs(tier):
+    # 'tdgap' (first abort in a main body, second between two teardown nodes, the aborting thread preemptible inside
+    # abort()) is explored deviation-bounded: with free forced switches its 6 threads explode
     r = explore.explore('A:%r' % (cfg,), lambda ch, cfg=cfg: execute(cfg, ch), check(cfg), bound,
-                        cap=30000 if tier == 'quick' else 400000)
+                        cap=30000 if tier == 'quick' else 400000, free_forced=not (len(cfg) > 3 and cfg[3] == 'tdgap'))
     rep.merge_violations(r['violations'])
     rep.add_part('%s aborts=%d via=%s gates=%s' % (cfg + ('-',))[:4], states=max(1, r['states']), transitions=r['steps'],
                  traces_validated_against_impl=r['executions'], deviation_bound=bound, distinct_outcomes=len(r['outcomes']),
